@@ -37,6 +37,9 @@ MsgOK ==
     /\ Accept0(v, F.signer, Now0, TRUE) /\ Accept0(v, UpperN(F.signer), Now1, TRUE)
     /\ ~Accept0(v, F.signer, Now0, FALSE)
     /\ ~Accept0(v, F.signer, Early, TRUE) /\ ~Accept0(v, F.signer, Late, TRUE)
+    /\ LET vi == [v EXCEPT !.inc = F.exp, !.exp = F.inc] IN      \* inverted window: no instant is inside
+         ~Accept0(vi, F.signer, Now0, TRUE) /\ ~Accept0(vi, F.signer, Now1, TRUE) /\ ~Accept0(vi, F.signer, Early, TRUE)
+         /\ ~Accept0(vi, F.signer, Late, TRUE) /\ ~Accept0(vi, F.signer, <<100, 255, 255, 255 - 0>>, TRUE)
     /\ ~Accept0(v, Tail(F.signer), Now0, TRUE) /\ ~Accept0(v, << <<75, 101, 90>>, <<122>> >>, Now0, TRUE)
     /\ rg[1].from = 0 /\ rg[1].to + 1 = rg[2].from /\ rg[2].to + 1 = rg[3].from /\ rg[3].to = Len(out) - 1
     /\ rg[2].from = Len(m) /\ Sub(out, rg[3].from + 1, rg[3].to + 1) = rs \o ToySig
